@@ -230,6 +230,14 @@ def period_of(prog, t, var, depth=0):
                     return ("conflict", found, r)
                 found = r
         return found
+    if t[0] == "loopout" and t[1] in prog.loops:
+        # a name assigned in a per-period loop and used after it: the object of the LAST iteration
+        lp = prog.loops[t[1]]
+        nxt = lp.next.get(t[2])
+        if nxt is not None and not (nxt[0] == "mut" or any(s == ("carried", t[1], t[2]) for s in walk(nxt))):
+            inner = period_of(prog, nxt, lp.target, depth + 1)
+            if inner is not None and not (isinstance(inner[0], str)) and inner[0] != 0:
+                return ("fixed", ("const", "the last iteration of the loop that builds it"))
     base = t[1] if t[0] == "sub" else None
     while base is not None and base[0] in ("phi", "ifexp", "setitem"):
         base = base[2] if base[0] in ("phi", "ifexp") and base[2][0] in ("setitem", "carried", "loopout", "phi") else \
@@ -430,7 +438,7 @@ def per_rules(ctx: Ctx):
         need(idx is not None and idx[0] == 1, "emax calculator index is not t+k")
         obj = seq.at(("binop", "+", T, ("const", idx[1])) if idx[1] else T)
         p = period_of(prog, obj, T)
-        ctx.ob("PER3:solve:emax_calculator", p == (1, 0) if p is not None else None, prog.where(raw),
+        ctx.ob("PER3:solve:emax_calculator", (p == (1, 0)) if p is not None else None, prog.where(raw),
                f"the discrete problem of period t uses the choice segments of period {_fmt(p)} -- required t",
                lhs=seq.describe(), rhs="t")
         ctx.count("per_period_lists")
